@@ -12,6 +12,8 @@ from ..sx import explore, SymInt, ex, Violation, must_value
 A, B = "/'g'/'a'", "/'g'/'b'"
 STEP_BOUND = 4
 
+from . import kdedup
+
 MANIFEST = dict(
     category='model_checking',
     text="Bounded symbolic execution of the real windowed-read / slice / index code: for each file of a stated family "
@@ -31,9 +33,12 @@ META = dict(
                'reader.TdmsReader.read_raw_data_for_channel', 'reader.TdmsReader._build_index',
                'reader.TdmsReader.read_channel_chunk_for_index', 'reader._trim_channel_chunk',
                'tdms_segment.TdmsSegment.read_raw_data_for_channel',
-               'tdms_segment.ContiguousDataReader._read_channel_data_chunk', 'channel_data.slice_raw_data'],
+               'tdms_segment.ContiguousDataReader._read_channel_data_chunk', 'channel_data.slice_raw_data',
+               'reader._array_equal', 'reader._deduplicate_array'],
     bounds=dict(
-        quick='files: 2-3 segments, channel a present/absent/no-data per segment, 1-3 values per chunk, 1-3 chunks, '
+        quick='kernel: offset-array comparison of _build_index on arrays of solver integers, lengths 0-6 with block size 1-4 (general) and 0..201 around '
+              'multiples of the default block (one differing position); '
+              'files: 2-3 segments, channel a present/absent/no-data per segment, 1-3 values per chunk, 1-3 chunks, '
               'companion channel before/after, contiguous+interleaved, int32/float64/string/timestamp, truncated last '
               'chunk, zero-length channel (sampled family, see tasks); lazy requests: offset>=0, length>=0|None, '
               'start/stop in Z|None, index in Z all UNBOUNDED, step in [-4,4]|None; eager requests (NumPy slicing of '
@@ -47,7 +52,7 @@ META = dict(
     assumptions=['file bytes come from the independent encoder vf/tdmsmodel.py',
                  'NumPy C kernels are executed concretely, not encoded'],
     buckets=dict(all=['window-spans-segments', 'window-empty', 'window-past-end', 'slice-negative-step',
-                      'slice-empty', 'index-negative', 'index-error', 'step-zero-error']),
+                      'slice-empty', 'index-negative', 'index-error', 'step-zero-error'] + kdedup.BUCKETS),
     replays_per_signature=4,
     validate_samples=16,
 )
@@ -204,7 +209,7 @@ def tasks(tier, seed):
             for v in range(8):
                 ts.append(dict(shape=sh, api='slice', mode='eager', sid=i, variant=v))
     ts.sort(key=lambda t: (0 if t['api'] == 'slice' else 1, t.get('variant', 0)))      # longest tasks first
-    return ts
+    return kdedup.tasks(tier) + ts
 
 
 # ----------------------------------------------------------------------------- harness
@@ -277,6 +282,8 @@ def truncated_expected(enc, raw_ts=False):
 
 
 def run_task(task, full=None, tcode=None):
+    if task.get('kind') == 'dedup':
+        return kdedup.run_task(task)
     enc = s1.build(task['shape'])
     raw_ts = bool(task.get('raw_ts'))
     full = truncated_expected(enc, raw_ts) if full is None else full
@@ -394,6 +401,8 @@ def run_task(task, full=None, tcode=None):
 # ----------------------------------------------------------------------------- replay / signatures
 def signature(c):
     task = c['task']
+    if task.get('kind') == 'dedup':
+        return kdedup.signature('C04', c)
     enc = s1.build(task['shape'])
     n = len(truncated_expected(enc))
     what = c.get('what', '')
@@ -415,6 +424,8 @@ def replay(art, full=None, tcode=None):
     """Concrete replay on the plain package.  Returns None if the property holds on this input."""
     import numpy as np
     task, inp = art['task'], art['inputs']
+    if task.get('kind') == 'dedup':
+        return kdedup.replay('C04', art)
     enc = s1.build(task['shape'])
     raw_ts = bool(task.get('raw_ts'))
     full = truncated_expected(enc, raw_ts) if full is None else full
